@@ -752,4 +752,388 @@ theorem incoming_null_ack {dec : Decoder} {cfg : Cfg} {pool : PoolObj} {s : Byte
     · rw [hmsg] at h; simp at h
 
 
+/-! ### corrupted frames: the side that did not accept fails, and so does its peer -/
+
+theorem errAck_tail {v : Verdict} (h : ∀ c, v = .he c → c ≠ 0 ∧ c < 256) : ErrTail (errAck v) := by
+  unfold errAck
+  split
+  · exact Or.inl rfl
+  · rename_i c _
+    obtain ⟨h0, h1⟩ := h c rfl
+    exact Or.inr ⟨c, h0, h1, rfl⟩
+  · exact Or.inr ⟨1, by omega, by omega, rfl⟩
+
+theorem readRaw_fail_he {allowed : List Nat} {s : Bytes} {e : End} {v : Verdict} {req : Nat}
+    (h : readRaw allowed s e = .fail v req) : ∀ c, v = .he c → c = 3 := by
+  unfold readRaw at h
+  repeat' (split at h)
+  all_goals (try (simp at h))
+  all_goals (try (obtain ⟨rfl, _⟩ := h))
+  all_goals (intro c hc; first | (injection hc with hc; exact hc.symm) | cases hc)
+
+theorem readMsg_fail_he {dec : Decoder} {allowed : List Nat} {pool : PoolObj} {s : Bytes} {e : End}
+    {v : Verdict} {req : Nat} {fr : List (Nat × Nat × Nat)}
+    (h : readMsg dec allowed pool s e = .fail v req fr) : ∀ c, v = .he c → c = 3 := by
+  unfold readMsg at h
+  split at h
+  · rename_i v' req' hr
+    simp at h
+    obtain ⟨rfl, _, _⟩ := h
+    exact readRaw_fail_he hr
+  · rename_i tp p rest off hr
+    simp only [msgTypeCred, msgTypeAck, msgTypeProto] at h
+    by_cases h1 : tp = 1
+    · subst h1
+      simp only [if_true] at h
+      split at h <;> simp at h <;> obtain ⟨rfl, _, _⟩ := h <;> intro c hc <;> cases hc
+    · by_cases h2 : tp = 2
+      · subst h2
+        simp only [if_neg h1, if_true] at h
+        split at h <;> simp at h <;> obtain ⟨rfl, _, _⟩ := h <;> intro c hc <;> cases hc
+      · by_cases h3 : tp = 3
+        · subst h3
+          simp only [if_neg h1, if_neg h2, if_true] at h
+          split at h <;> simp at h <;> obtain ⟨rfl, _, _⟩ := h <;> intro c hc <;> cases hc
+        · simp [h1, h2, h3] at h
+
+theorem failClose_shape (v : Verdict) (w : List WFrame) (rd : List (Nat × Nat × Nat)) (mr : Nat) (p : PoolObj)
+    (hv : ∀ c, v = .he c → c ≠ 0 ∧ c < 256) :
+    ∃ t, (failClose v w rd mr p).wrote = w ++ t ∧ ErrTail t ∧ (failClose v w rd mr p).verdict = v := by
+  unfold failClose
+  split
+  · exact ⟨[], by simp, Or.inl rfl, rfl⟩
+  · exact ⟨[], by simp, Or.inl rfl, rfl⟩
+  · exact ⟨errAck v, rfl, errAck_tail hv, rfl⟩
+
+theorem he3_ok : ∀ c, c = 3 → c ≠ 0 ∧ c < 256 := by intro c h; omega
+
+/-- **a responder that did not accept the initiator's credentials**: fails, and has written nothing
+but (possibly) one non-Null error ack -/
+theorem incoming_not_accepted {dec : Decoder} {cfg : Cfg} {pool : PoolObj} {s : Bytes} {e : End}
+    (hna : ¬ AcceptedCreds dec cfg pool s e) :
+    (incoming dec cfg pool s e).verdict.isOk = false ∧ ErrTail (incoming dec cfg pool s e).wrote := by
+  unfold incoming
+  cases h1 : readMsg dec inRead1 pool s e with
+  | fail v req fr =>
+    simp only
+    obtain ⟨t, hw, ht, hv⟩ := failClose_shape v [] fr req pool (fun c hc => he3_ok c (readMsg_fail_he h1 c hc))
+    rw [hw, hv]
+    exact ⟨(readMsg_fail h1).2.1, by simpa using ht⟩
+  | ok r1 =>
+    simp only
+    obtain ⟨p1, hr1, _, _, _, hk1⟩ := readMsg_ok h1
+    rcases hk1 with ⟨htp1, hmsg, f, hd1, hp1⟩ | ⟨_, hmsg, _⟩ | ⟨htp, hmsg, _⟩ | ⟨h1', h2', h3', hmsg, _⟩
+    · rw [hmsg]; simp only
+      cases hc : check cfg r1.pool with
+      | error c =>
+        simp only
+        obtain ⟨t, hw, ht, hv⟩ := failClose_shape (.he c) [] [(r1.tp, r1.off, r1.len)] (max headerSize r1.len) r1.pool
+          (fun c' hc' => by injection hc' with hc'; subst hc'; exact ⟨check_error_ne_zero hc, check_error_lt hc⟩)
+        rw [hw, hv]
+        exact ⟨rfl, by simpa using ht⟩
+      | ok res =>
+        exfalso
+        apply hna
+        refine ⟨p1, r1.rest, f, res, ?_, hd1, ?_⟩
+        · have := readRaw_narrow hr1; rw [htp1] at this; exact this
+        · rw [← hp1]; exact hc
+    · rw [hmsg]; exact ⟨rfl, Or.inl rfl⟩
+    · rw [hmsg]; exact ⟨rfl, Or.inl rfl⟩
+    · rw [hmsg]; exact ⟨rfl, Or.inl rfl⟩
+
+/-- **an initiator that did not accept the responder's credentials**: fails, and after its own
+credentials has written nothing but (possibly) one non-Null error ack -/
+theorem outgoing_not_accepted {dec : Decoder} {cfg : Cfg} {pool : PoolObj} {s : Bytes} {e : End}
+    (hna : ¬ AcceptedCreds dec cfg pool s e) :
+    (outgoing dec cfg pool s e).verdict.isOk = false ∧
+    ∃ t, (outgoing dec cfg pool s e).wrote = .cred :: t ∧ ErrTail t := by
+  unfold outgoing
+  cases h1 : readMsg dec outRead1 pool s e with
+  | fail v req fr =>
+    simp only
+    obtain ⟨t, hw, ht, hv⟩ := failClose_shape v [.cred] fr req pool (fun c hc => he3_ok c (readMsg_fail_he h1 c hc))
+    rw [hw, hv]
+    exact ⟨(readMsg_fail h1).2.1, t, rfl, ht⟩
+  | ok r1 =>
+    simp only
+    obtain ⟨p1, hr1, _, _, _, hk1⟩ := readMsg_ok h1
+    rcases hk1 with ⟨htp1, hmsg, f, hd1, hp1⟩ | ⟨_, hmsg, _⟩ | ⟨htp, hmsg, _⟩ | ⟨h1', h2', h3', hmsg, _⟩
+    · rw [hmsg]; simp only
+      cases hc : check cfg r1.pool with
+      | error c =>
+        simp only
+        obtain ⟨t, hw, ht, hv⟩ := failClose_shape (.he c) [.cred] [(r1.tp, r1.off, r1.len)] (max headerSize r1.len) r1.pool
+          (fun c' hc' => by injection hc' with hc'; subst hc'; exact ⟨check_error_ne_zero hc, check_error_lt hc⟩)
+        rw [hw, hv]
+        exact ⟨rfl, t, rfl, ht⟩
+      | ok res =>
+        exfalso
+        apply hna
+        refine ⟨p1, r1.rest, f, res, ?_, hd1, ?_⟩
+        · have := readRaw_narrow hr1; rw [htp1] at this; exact this
+        · rw [← hp1]; exact hc
+    · rw [hmsg]; exact ⟨(ackVerdict_not_ok _).1, [], rfl, Or.inl rfl⟩
+    · rw [hmsg]; exact ⟨rfl, [], rfl, Or.inl rfl⟩
+    · rw [hmsg]; exact ⟨rfl, [], rfl, Or.inl rfl⟩
+
+
+variable {dec : Decoder} {enc : Encoder} {oc ic : Cfg}
+
+theorem out_nil (dec : Decoder) (oc : Cfg) (e : End) : (outgoing dec oc .fresh [] e).verdict.isOk = false := by
+  unfold outgoing
+  cases e <;> simp [readMsg_nil_eof, readMsg_nil_stall, failClose, Verdict.isOk]
+
+theorem out_ok_eof (W : WellEncoded dec enc oc ic) {res : Result} (hB : outChecksIn oc ic = .ok res) :
+    (outgoing dec oc .fresh (enc .inc .cred) .eof).verdict = .eof := by
+  obtain ⟨r, hr, hm, hrest, hp⟩ := W.cred .inc outRead1 .fresh [] .eof (by simp [outRead1, msgTypeCred])
+  unfold outChecksIn at hB
+  unfold outgoing
+  simp only [List.append_nil] at hr
+  simp [hr, hm, hp, hB, hrest, readMsg_nil_eof, failClose]
+
+theorem out_ok_ack_nz (W : WellEncoded dec enc oc ic) {res : Result} (hB : outChecksIn oc ic = .ok res)
+    (c : Nat) (hc0 : c ≠ 0) (hc : c < 256) (rest : Bytes) (e : End) :
+    (outgoing dec oc .fresh (enc .inc .cred ++ (enc .inc (.ack c) ++ rest)) e).verdict = .he c := by
+  obtain ⟨r, hr, hm, hrest, hp⟩ := W.cred .inc outRead1 .fresh (enc .inc (.ack c) ++ rest) e (by simp [outRead1, msgTypeCred])
+  obtain ⟨r2, hr2, hm2, hrest2, hp2⟩ := W.ack .inc c hc outRead2 r.pool rest e (by simp [outRead2, msgTypeAck])
+    (by rw [hp]; simp [mergeCred, PoolObj.fresh])
+  unfold outChecksIn at hB
+  unfold outgoing
+  rw [← hp] at hB
+  simp [hr, hm, hB, hrest, hr2, hm2, hp2, hc0]
+
+/-- the initiator, fed what a failing responder wrote (nothing / its credentials, then nothing or a
+non-Null error ack), fails -/
+theorem out_fails_on_failed_in (W : WellEncoded dec enc oc ic) (pre t : List WFrame)
+    (hpre : pre = [] ∨ pre = [.cred]) (ht : ErrTail t) (e : End) :
+    (outgoing dec oc .fresh (encAll enc .inc (pre ++ t)) e).verdict.isOk = false := by
+  rcases hpre with rfl | rfl
+  · rcases ht with rfl | ⟨c, hc0, hc, rfl⟩
+    · simp only [List.append_nil, encAll, List.map_nil, List.flatten_nil]; exact out_nil dec oc e
+    · simp only [List.nil_append, encAll, List.map_cons, List.map_nil, List.flatten_cons, List.flatten_nil]
+      rw [out_ack W c hc]; exact (ackVerdict_not_ok c).1
+  · cases hB : outChecksIn oc ic with
+    | error cb =>
+      simp only [encAll, List.cons_append, List.nil_append, List.map_cons, List.flatten_cons]
+      rw [(out_err W hB _ _).1]; rfl
+    | ok res =>
+      rcases ht with rfl | ⟨c, hc0, hc, rfl⟩
+      · simp only [List.append_nil, encAll, List.map_cons, List.map_nil, List.flatten_cons, List.flatten_nil]
+        cases e
+        · rw [out_ok_eof W hB]; rfl
+        · rw [(out_ok_stall W hB).1]; rfl
+      · simp only [encAll, List.cons_append, List.nil_append, List.map_cons, List.map_nil, List.flatten_cons, List.flatten_nil]
+        rw [out_ok_ack_nz W hB c hc0 hc]; rfl
+
+/-- the responder, fed the initiator's credentials followed by what a failing initiator wrote after
+them (nothing or a non-Null error ack), fails -/
+theorem in_fails_on_failed_out (W : WellEncoded dec enc oc ic) (t : List WFrame) (ht : ErrTail t) (e : End) :
+    (incoming dec ic .fresh (enc .out .cred ++ encAll enc .out t) e).verdict.isOk = false := by
+  cases hA : inChecksOut oc ic with
+  | error ca => rw [(in_err W hA _ _).1]; rfl
+  | ok res =>
+    rcases ht with rfl | ⟨c, hc0, hc, rfl⟩
+    · simp only [encAll, List.map_nil, List.flatten_nil, List.append_nil]
+      cases e
+      · rw [(in_ok_eof W hA).1]; rfl
+      · rw [(in_ok_stall W hA).1]; rfl
+    · simp only [encAll, List.map_cons, List.map_nil, List.flatten_cons, List.flatten_nil]
+      have h := (in_ok_ack W hA c hc [] e).1
+      simp only [hc0, if_false] at h
+      rw [h]; exact (ackVerdict_not_ok c).1
+
+
+/-- whatever a responder that does not succeed has written: nothing or its credentials, then nothing
+or one non-Null error ack -/
+theorem incoming_fail_shape {dec : Decoder} {cfg : Cfg} {pool : PoolObj} {s : Bytes} {e : End}
+    (hf : (incoming dec cfg pool s e).verdict.isOk = false) :
+    ∃ pre t, (incoming dec cfg pool s e).wrote = pre ++ t ∧ (pre = [] ∨ pre = [.cred]) ∧ ErrTail t := by
+  unfold incoming at hf ⊢
+  cases h1 : readMsg dec inRead1 pool s e with
+  | fail v req fr =>
+    simp only
+    obtain ⟨t, hw, ht, _⟩ := failClose_shape v [] fr req pool (fun c hc => he3_ok c (readMsg_fail_he h1 c hc))
+    exact ⟨[], t, hw, Or.inl rfl, ht⟩
+  | ok r1 =>
+    rw [h1] at hf
+    simp only at hf ⊢
+    cases hm : r1.msg with
+    | cred =>
+      rw [hm] at hf; simp only at hf ⊢
+      cases hc : check cfg r1.pool with
+      | error c =>
+        simp only
+        obtain ⟨t, hw, ht, _⟩ := failClose_shape (.he c) [] [(r1.tp, r1.off, r1.len)] (max headerSize r1.len) r1.pool
+          (fun c' hc' => by injection hc' with hc'; subst hc'; exact ⟨check_error_ne_zero hc, check_error_lt hc⟩)
+        exact ⟨[], t, hw, Or.inl rfl, ht⟩
+      | ok res =>
+        rw [hc] at hf; simp only at hf ⊢
+        cases h2 : readMsg dec inRead2 r1.pool r1.rest e with
+        | fail v req fr =>
+          simp only
+          obtain ⟨t, hw, ht, _⟩ := failClose_shape v [.cred] ([(r1.tp, r1.off, r1.len)] ++ shift r1.used fr)
+            (max (max headerSize r1.len) req) r1.pool (fun c hc => he3_ok c (readMsg_fail_he h2 c hc))
+          exact ⟨[.cred], t, hw, Or.inr rfl, ht⟩
+        | ok r2 =>
+          rw [h2] at hf; simp only at hf ⊢
+          cases hm2 : r2.msg with
+          | ack =>
+            rw [hm2] at hf; simp only at hf ⊢
+            split
+            · exact ⟨[.cred], [], rfl, Or.inr rfl, Or.inl rfl⟩
+            · rename_i hz
+              rw [if_neg hz] at hf
+              simp [Verdict.isOk] at hf
+          | cred => exact ⟨[.cred], [], rfl, Or.inr rfl, Or.inl rfl⟩
+          | proto => exact ⟨[.cred], [], rfl, Or.inr rfl, Or.inl rfl⟩
+          | none => exact ⟨[.cred], [], rfl, Or.inr rfl, Or.inl rfl⟩
+    | ack => exact ⟨[], [], rfl, Or.inl rfl, Or.inl rfl⟩
+    | proto => exact ⟨[], [], rfl, Or.inl rfl, Or.inl rfl⟩
+    | none => exact ⟨[], [], rfl, Or.inl rfl, Or.inl rfl⟩
+
+/-- the responder got the honest credentials but then something that is not an ack(Null): it fails -/
+theorem in_fails_on_bad_final_ack {dec : Decoder} {enc : Encoder} {oc ic : Cfg} (W : WellEncoded dec enc oc ic)
+    (g : Bytes) (hg : NotNullAck dec g) (rest : Bytes) (e : End) :
+    (incoming dec ic .fresh (enc .out .cred ++ (g ++ rest)) e).verdict.isOk = false := by
+  cases hv : (incoming dec ic .fresh (enc .out .cred ++ (g ++ rest)) e).verdict with
+  | ok res =>
+    exfalso
+    obtain ⟨p1, rest1, f, p2, rest2, a, hr1, hd1, hc, hr2, hd2, hz⟩ := incoming_ok hv
+    obtain ⟨r, hr, hm, hrest, hp⟩ := W.cred .out [msgTypeCred] .fresh (g ++ rest) e (by simp [msgTypeCred])
+    obtain ⟨p1', hr1', _, _, _, _⟩ := readMsg_ok hr
+    rw [hr1] at hr1'
+    injection hr1' with _ _ hrest1 _
+    rw [hrest] at hrest1
+    rw [hrest1] at hr2
+    obtain ⟨hn, hs⟩ := hg rest e p2 rest2 a hr2 hd2
+    cases a with
+    | none => exact hn rfl
+    | some v =>
+      simp [mergeAck] at hz
+      exact hs (by rw [hz])
+  | he c => rfl
+  | declined => rfl
+  | tooBig => rfl
+  | eof => rfl
+  | ueof => rfl
+  | ctx => rfl
+  | decode => rfl
+  | panic => rfl
+
+
+theorem readFull_eof_no_stall (n : Nat) (s : Bytes) : readFull n s .eof ≠ .stall := by
+  unfold readFull
+  by_cases h0 : n = 0
+  · simp [h0]
+  · by_cases hl : n ≤ s.length
+    · simp [h0, hl]
+    · simp only [h0, hl, if_false]
+      split <;> simp
+
+theorem readRaw_eof_no_ctx {allowed : List Nat} {s : Bytes} {v : Verdict} {req : Nat}
+    (h : readRaw allowed s .eof = .fail v req) : v ≠ .ctx := by
+  unfold readRaw at h
+  split at h
+  · simp at h; obtain ⟨rfl, _⟩ := h; simp
+  · simp at h; obtain ⟨rfl, _⟩ := h; simp
+  · rename_i hf; exact absurd hf (readFull_eof_no_stall _ _)
+  · split at h
+    · simp at h; obtain ⟨rfl, _⟩ := h; simp
+    · split at h
+      · simp at h; obtain ⟨rfl, _⟩ := h; simp
+      · split at h
+        · simp at h; obtain ⟨rfl, _⟩ := h; simp
+        · split at h
+          · simp at h; obtain ⟨rfl, _⟩ := h; simp
+          · simp at h; obtain ⟨rfl, _⟩ := h; simp
+          · rename_i hf; exact absurd hf (readFull_eof_no_stall _ _)
+          · simp at h
+
+theorem readMsg_eof_no_ctx {dec : Decoder} {allowed : List Nat} {pool : PoolObj} {s : Bytes}
+    {v : Verdict} {req : Nat} {fr : List (Nat × Nat × Nat)}
+    (h : readMsg dec allowed pool s .eof = .fail v req fr) : v ≠ .ctx := by
+  unfold readMsg at h
+  split at h
+  · rename_i v' req' hr
+    simp at h
+    obtain ⟨rfl, _, _⟩ := h
+    exact readRaw_eof_no_ctx hr
+  · rename_i tp p rest off hr
+    simp only [msgTypeCred, msgTypeAck, msgTypeProto] at h
+    by_cases h1 : tp = 1
+    · subst h1
+      simp only [if_true] at h
+      split at h <;> simp at h <;> obtain ⟨rfl, _, _⟩ := h <;> simp
+    · by_cases h2 : tp = 2
+      · subst h2
+        simp only [if_neg h1, if_true] at h
+        split at h <;> simp at h <;> obtain ⟨rfl, _, _⟩ := h <;> simp
+      · by_cases h3 : tp = 3
+        · subst h3
+          simp only [if_neg h1, if_neg h2, if_true] at h
+          split at h <;> simp at h <;> obtain ⟨rfl, _, _⟩ := h <;> simp
+        · simp [h1, h2, h3] at h
+
+theorem ackVerdict_ne_ctx (c : Nat) : ackVerdict c ≠ .ctx := by
+  unfold ackVerdict; split <;> simp
+
+theorem failClose_verdict (v : Verdict) (w : List WFrame) (rd : List (Nat × Nat × Nat)) (mr : Nat) (p : PoolObj) :
+    (failClose v w rd mr p).verdict = v := (failClose_facts v w rd mr p).1
+
+/-- once the peer has closed the stream (end = eof) a side never keeps waiting -/
+theorem side_eof_no_ctx (dec : Decoder) (role : Role) (cfg : Cfg) (pool : PoolObj) (s : Bytes) :
+    (runSide dec role cfg pool s .eof).verdict ≠ .ctx := by
+  cases role
+  · unfold runSide outgoing
+    simp only
+    cases h1 : readMsg dec outRead1 pool s .eof with
+    | fail v req fr => simp only; rw [failClose_verdict]; exact readMsg_eof_no_ctx h1
+    | ok r1 =>
+      simp only
+      cases r1.msg with
+      | cred =>
+        simp only
+        cases check cfg r1.pool with
+        | error c => simp only; rw [failClose_verdict]; simp
+        | ok res =>
+          simp only
+          cases h2 : readMsg dec outRead2 r1.pool r1.rest .eof with
+          | fail v req fr => simp only; rw [failClose_verdict]; exact readMsg_eof_no_ctx h2
+          | ok r2 =>
+            simp only
+            cases r2.msg with
+            | ack => simp only; split <;> simp
+            | cred => simp
+            | proto => simp
+            | none => simp
+      | ack => simp only; exact ackVerdict_ne_ctx _
+      | proto => simp
+      | none => simp
+  · unfold runSide incoming
+    simp only
+    cases h1 : readMsg dec inRead1 pool s .eof with
+    | fail v req fr => simp only; rw [failClose_verdict]; exact readMsg_eof_no_ctx h1
+    | ok r1 =>
+      simp only
+      cases r1.msg with
+      | cred =>
+        simp only
+        cases check cfg r1.pool with
+        | error c => simp only; rw [failClose_verdict]; simp
+        | ok res =>
+          simp only
+          cases h2 : readMsg dec inRead2 r1.pool r1.rest .eof with
+          | fail v req fr => simp only; rw [failClose_verdict]; exact readMsg_eof_no_ctx h2
+          | ok r2 =>
+            simp only
+            cases r2.msg with
+            | ack => simp only; split <;> first | exact ackVerdict_ne_ctx _ | simp
+            | cred => simp
+            | proto => simp
+            | none => simp
+      | ack => simp
+      | proto => simp
+      | none => simp
+
+
 end AnySync.Handshake
